@@ -170,7 +170,7 @@ def plan(tier, seed):
 
 def finish(acc, tier, seed):
     reasons = []
-    need = 4000 if tier == "quick" else 60000
+    need = 2500 if tier == "quick" else 60000
     if acc.evals < need:
         reasons.append(f"only {acc.evals} inputs evaluated on the grid (< {need})")
     if acc.counters.get("gated_rejections_expected", 0) < 20:
